@@ -248,4 +248,31 @@ def active (p : Params) (w : Worker) : Bool :=
 def earlyCancel (c : Cfg) (t : Tid) : Bool :=
   t = .ctl && c.cpc = .cn2 && ((c.ws c.tgt).pc = .held || (c.ws c.tgt).pc = .arm)
 
+/-! ### observation of the shared state (trace inclusion, see `CpModel/C20Admit.lean`)
+
+  What another thread (or the property's oracle) can see, free of program counters and line
+  numbers: `Monitor.thread` (which worker object, by creation index), the number of controller calls
+  that have returned, whether the controller died, and per worker object: thread started / `running`
+  flag / `run()` left / number of callback invocations. -/
+
+def b01 (b : Bool) : String := if b then "1" else "0"
+
+def obsW (w : Worker) : String :=
+  s!"{b01 (w.pc != .created)}{b01 w.running}{b01 (w.pc == .done)}:{w.calls}"
+
+def obsStr (c : Cfg) : String :=
+  let t := match c.thread with
+    | none => "N"
+    | some k => toString k
+  let ws := (List.range c.nw).map fun i => obsW (c.ws i)
+  s!"T={t};R={c.nret};X={b01 (c.cpc == .crashed)};W={"/".intercalate ws}"
+
+/-- identifies a configuration up to the fields the step function reads (duplicate removal in the
+    subset construction; completeness only, soundness does not depend on it) -/
+def keyStr (c : Cfg) : String :=
+  let ws := (List.range c.nw).map fun i =>
+    let w := c.ws i
+    s!"{repr w.pc}{b01 w.running}{w.calls}{b01 w.stopRet}{w.after}"
+  s!"{repr c.thread}|{",".intercalate ws}|{repr c.cpc}|{repr c.g}|{c.todo.length}|{c.tgt}|{repr c.cur}|{repr c.lastRet}|{c.nret}|{repr c.cancelled}"
+
 end CpModel.Monitor
